@@ -1182,7 +1182,10 @@ impl DistributedTxCoordinator {
                         reason: "recovered from WAL".to_string(),
                     },
                 };
-                tx.votes.insert(*shard, vote);
+                // The live coordinator accepts only the first vote of a shard; later ones
+                // (duplicates, votes arriving after the decision) are rejected but were
+                // already logged, so the first logged vote is the one it held.
+                tx.votes.entry(*shard).or_insert(vote);
             }
             tx
         };
